@@ -6,7 +6,11 @@ TECHNIQUE = ('evaluation-sequence extraction: path-wise order of the generate_ev
              'helper methods inlined, local aliases followed, the default iteration over `subexprs` expanded), compared with a frozen order table taken from the language reference; '
              'abstract interpretation of the rewriting functions of Optimize.py over provenance paths (which operand of the original node a value comes from), temporaries, lists '
              'built in loops (with iteration polarity) and evaluation-ordered operand sequences of the constructed tree (operands of known node classes ordered by the extracted '
-             'sequences; loop-carried wrappers solved symbolically)')
+             'sequences; loop-carried wrappers solved symbolically); '
+             'writer/reader decision tables of one node class extracted by partial evaluation (sa/rules/sC14.Emu): under which flag valuations the code generator pastes an operand\'s C result '
+             'besides/more than the one evaluation vs. under which the analysis method made the operand simple, compared over all valuations of the shared flags (type flags pruned with the '
+             'flag table of the PyrexTypes classes); order typestate (EMPTY/ASC/DESC/PERM/unknown relative to a source sequence, position tags, keyed lookups) of the lists of temporaries that '
+             'are wrapped around a node in a loop, in every module')
 DECIDES = ('C20-ORDER: for each entry of the order table (binary and boolean operators, conditional expression, comparisons incl. cascades, subscription, slicing, dict item, the three '
            'call node classes, cached method calls, f-string value/spec, display * factor, single/cascaded/parallel/augmented assignment, for-in, raise-from, and the let constructs '
            'EvalWithTempExprNode/LetNode) and every subclass: on every code-generation path the earlier operand is asked for its evaluation code before the later one. '
@@ -15,8 +19,17 @@ DECIDES = ('C20-ORDER: for each entry of the order table (binary and boolean ope
            '(outermost temporary first, then the body; operands of constructed nodes in the order of C20-ORDER) keeps operands of one source list in index order and sibling '
            'operands in table order, unless the operand is established to be side-effect free by is_simple()/try_is_simple()/is_literal/is_name on that path; runs of temporaries are '
            'not wrapped back to front, and every temporary that carries an operand and is referenced by the returned tree is bound by a let (otherwise the operand is never evaluated). '
-           'C20-DROP: a rewrite in Optimize.py empties the operand list of an existing node only under a test that establishes the operands as side-effect free.')
-NOT_DECIDED = ('temporaries introduced by coercions and by analyse_types (coerce_to_temp etc.); the order inside helper C functions; short-circuit behaviour beyond the order of the two '
+           'C20-DROP: a rewrite in Optimize.py empties the operand list of an existing node only under a test that establishes the operands as side-effect free. '
+           'C20-PASTE: for every expression node class of ExprNodes.py whose own code generator pastes `self.<operand>.result()` into statements it emits in addition to the evaluation it delegates '
+           'to its base class (DivNode: zero-division, overflow and cdivision-warning tests), or at least twice into its result expression (CoerceToComplexNode, CoerceCStringToBooleanNode): '
+           'under every valuation of the flags both phases consult the analysis method / constructor has made that operand simple (coerce_to_simple/coerce_to_temp) - otherwise a non-simple C '
+           'operand is evaluated once per paste and operands that did get a temporary run before it. '
+           'C20-STACK: for every loop that stacks EvalWithTempExprNode/LetNode wrappers from a list (11 sites in ExprNodes, Nodes, Optimize, ParseTreeTransforms): the evaluation order of the '
+           'temporaries (reverse of the wrapping order) is not definitely the reverse of, or a permutation of, the source order of the operands they carry - a list filled while iterating another '
+           'sequence with operands fetched by key (GeneralCallNode.map_to_simple_call_node: declared parameters vs. keyword arguments) must be re-sorted by the recorded source position.')
+NOT_DECIDED = ('temporaries introduced by coercions and by analyse_types (coerce_to_temp etc.) beyond the paste/simple agreement of C20-PASTE (TypecastNode, PyMethodCallNode, JoinedStrNode, YieldExprNode '
+               'exceed the evaluator: info lines); C20-STACK reports only definite disorder - where a list comes from a helper or a parameter its order is not established (info lines); '
+               'the relative order of two ascending runs that are concatenated; the order inside helper C functions; short-circuit behaviour beyond the order of the two '
                'operands; rewrites that do not use the let constructs (e.g. argument re-packing in call optimisations, ConstantFolding dropping `[f()] * 0` operands - observed: '
                'f is not called); whether a value established as is_simple() really is side-effect free; generator/closure evaluation order; '
                'rewrites outside Optimize.py (ExpandInplaceOperators and SingleAssignmentNode.unroll were read: they keep source order).')
@@ -63,6 +76,16 @@ MUTATIONS = [
     ('Cython/Compiler/Optimize.py', '_handle_simple_function_isinstance: `for temp in temps[::-1]` -> `for temp in temps`', 'MISSED: the construct pos_args[1]-before-pos_args[0] already fires on this function and the type list comes from a helper (unknown order)'),
     ('Cython/Compiler/Optimize.py', '_optimise_min_max: temporary for args[0] created but wrapped innermost / never wrapped', 'LET-ORDER ..._optimise_min_max:args[1:]-before-args[0] / args[0]-never-evaluated'),
     ('Cython/Compiler/Optimize.py', "visit_MulNode: `node.operand1.args = []` when the factor is 0", 'C20-DROP Optimize.ConstantFolding.visit_MulNode:drop:node.operand1.args'),
+    ('Cython/Compiler/ExprNodes.py', 'SEED C20a: map_to_simple_call_node `[arg for i,arg in sorted(temps)]` -> `[arg for _, arg in temps]`', 'C20-STACK ExprNodes.GeneralCallNode.map_to_simple_call_node:EvalWithTempExprNode[0]'),
+    ('Cython/Compiler/ExprNodes.py', 'map_to_simple_call_node: sorted(temps, reverse=True)', 'C20-STACK ...map_to_simple_call_node:EvalWithTempExprNode[0] (right to left)'),
+    ('Cython/Compiler/ExprNodes.py', 'map_to_simple_call_node: `for temp in temps:` (wrapped front to back)', 'C20-STACK ...map_to_simple_call_node:EvalWithTempExprNode[0]'),
+    ('Cython/Compiler/ExprNodes.py', 'map_to_simple_call_node: `[arg for arg in (t for _, t in temps)]` (sort dropped, generator in between)', 'C20-STACK ...map_to_simple_call_node:EvalWithTempExprNode[0]'),
+    ('Cython/Compiler/Optimize.py', 'FlattenInListTransform: `for temp in temps[::-1]` -> `for temp in temps`', 'C20-STACK Optimize.FlattenInListTransform.visit_PrimaryCmpNode:EvalWithTempExprNode[0] (+ LET-ORDER)'),
+    ('Cython/Compiler/ExprNodes.py', 'SEED C20b: DivNode.analyse_operation coerces operand1 only under cdivision_warnings', 'C20-PASTE ExprNodes.DivNode:operand1'),
+    ('Cython/Compiler/ExprNodes.py', 'DivNode.analyse_operation: `if env.directives[\'cdivision_warnings\']:` / `if self.zerodivision_check and ...`', 'C20-PASTE ExprNodes.DivNode:operand1 + :operand2'),
+    ('Cython/Compiler/ExprNodes.py', 'the same defect in refactored form (need_simple local, early return, operand1 coerced under the directive only)', 'C20-PASTE ExprNodes.DivNode:operand1'),
+    ('Cython/Compiler/ExprNodes.py', 'CoerceToComplexNode.__init__: coerce_to_simple removed / done under `arg.type.is_float`', 'C20-PASTE ExprNodes.CoerceToComplexNode:arg'),
+    ('Cython/Compiler/ExprNodes.py', 'CoerceCStringToBooleanNode.__init__: `arg = arg.coerce_to_simple(env)` removed', 'C20-PASTE ExprNodes.CoerceCStringToBooleanNode:arg'),
     # repairs make the corresponding construct go silent (and nothing else appear)
     ('Cython/Compiler/Nodes.py', 'FIX InPlaceAssignmentNode: lhs.generate_subexpr_evaluation_code before rhs.generate_evaluation_code', 'C20-ORDER InPlaceAssignmentNode silent'),
     ('Cython/Compiler/Optimize.py', 'FIX FlattenInListTransform: EvalWithTempExprNode(lhs, ...) applied last (outermost)', 'LET-ORDER visit_PrimaryCmpNode silent'),
@@ -79,9 +102,15 @@ SILENT_EDITS = [   # behaviour-preserving, no new violation
     'CascadedAssignmentNode.generate_assignment_code: loop variables renamed',
     'FlattenInListTransform: `for tmp_node in reversed(temps)`; `temps = list()`',
     '_handle_simple_function_set: `new_args`/`item` names, early `continue` for simple items',
+    'map_to_simple_call_node: `for let_ref in reversed(temps)`; `temps.sort(); ordered = [t for _, t in temps]; temps = new_temps + ordered`',
+    'FlattenInListTransform: `temps.reverse(); for temp in temps:`',
+    'DivNode.analyse_operation: `need_simple = self.zerodivision_check or env.directives[...]; if not need_simple: return result`, operands coerced in the other order',
+    'DivNode.generate_div_warning_code: zero test built with f-strings, branches swapped, locals renamed',
 ]
 
 
+# pending finding: sC20.rule_hoist (C20-HOIST: operand2 of a binary node forced into a temporary without operand1) is NOT registered below - on the unmodified tree it reports
+# ExprNodes.PrimaryCmpNode.analyse_types:operand2-before-operand1, a genuine defect (`f() < g() < h()` with cdef noexcept functions logs g, f, h; /tmp/strengthen/G5/FINDING_1.md).
 def run(ctx):
     from ..rules import flatpar
     from ..rules import sC20
